@@ -131,6 +131,7 @@ func runLifecycle(name string, w world) *lifecycle {
 		do(op{"inject-foreign", "pay-A-B"})
 		do(op{"inject-foreign", "pay-G-B"})
 		do(op{"block", "valid2[pay-G-A,pay-A-B]+10s"})
+		do(op{"block", "valid2-same-owner[pay-A-B,payall-A2-C]+10s"}) // two transactions spending outputs of one owner, the second without change
 		do(op{"inject-foreign", "pay-G-C-samefee"})
 		do(op{"block", "valid[pay-G-A]+10s"}) // conflicts with the pending pay-G-B / pay-G-C (same input): they become stale
 		do(op{"refresh", ""})
